@@ -18,7 +18,7 @@ RULE = ('random units: seeded rule sets (2..9 rules, shared/splitting prefixes, 
         'sets of size <=3 from a fixed 14-rule universe x all paths of length <=6 over {a,b,/,1,CR} (thorough tier). Non-trivial = at least one '
         'rule matches under S1; distinct = distinct (rule-set text, path, method).')
 PYOPT = {'quick': 1, 'thorough': 1}     # one unit of every kind is also served by an interpreter started with -O (assert statements compiled out)
-REQUIRED = ['units_run_under_python_-O', 'selected', 'not_found', 'multi_candidate', 'needed_backtracking', 'strict_cases', 'weak_cases',
+REQUIRED = ['units_run_under_python_-O', 'rule_sets_with_16_or_more_siblings_at_one_node', 'selected', 'not_found', 'multi_candidate', 'needed_backtracking', 'strict_cases', 'weak_cases',
             'converted_int', 'cr_in_path', 'same_pattern_other_method', 'wsgi_calls', 'requests_below_a_mount_point', 'mount_point_itself_requested(empty PATH_INFO)', 'kwargs_compared',
             'flavour_colon', 'flavour_angle', 'flavour_brace', 'method_405', 'domain_map_requests', 'domain_map_leading_empty_segments']
 EXHAUSTIVE = {'quick': False, 'thorough': False,
@@ -48,8 +48,9 @@ UNIVERSE = [
 
 def plan(tier, seed):
     if tier == 'quick':
-        return [{'kind': 'random', 'sets': 100, 'paths': 70, 'sub': i} for i in range(16)] + [{'kind': 'domain', 'sets': 60, 'paths': 40, 'sub': i} for i in range(2)]
+        return [{'kind': 'random', 'sets': 100, 'paths': 70, 'sub': i} for i in range(16)] + [{'kind': 'domain', 'sets': 60, 'paths': 40, 'sub': i} for i in range(2)] + [{'kind': 'wide', 'widths': [3, 15, 16, 17, 33, 60], 'variants': 4, 'paths': 40}]
     units = [{'kind': 'random', 'sets': 300, 'paths': 80, 'sub': i} for i in range(48)] + [{'kind': 'domain', 'sets': 300, 'paths': 60, 'sub': i} for i in range(8)]
+    units += [{'kind': 'wide', 'widths': [w], 'variants': 12, 'paths': 120} for w in (2, 3, 7, 8, 9, 15, 16, 17, 31, 32, 33, 60, 62)]
     combos = [c for k in (1, 2, 3) for c in itertools.combinations(range(len(UNIVERSE)), k)]
     nsh = 48
     for i in range(nsh):
@@ -365,6 +366,37 @@ def random_unit(ctx, unit):
             ctx.sample({'rules': [r['text'] + ' [' + r['method'] + ']' for r in acc_rules], 'paths': paths[:6]})
 
 
+def wide_unit(ctx, unit):
+    """Tree nodes with many children: 3 .. 60 literal siblings (each starting with another character) beside wildcard rules at the same
+    position.  How wide a node is changes nothing about which rule a path selects."""
+    rng = ctx.rng
+    firsts = 'abcdefghijklmnopqrstuvwxyzABCDEFGHIJKLMNOPQRSTUVWXYZ0123456789'
+    for width in unit['widths']:
+        for variant in range(unit['variants']):
+            rules = []
+            for ch in firsts[:width]:
+                lit = ch + rng.choice(['', 'x', '1', '-' + ch])
+                rules.append({'ast': [['lit', 'x/' + lit]], 'text': '/x/' + lit, 'method': 'GET'})
+            wild = [[['lit', 'x/'], ['wild', 'name', None, None], ['lit', '/edit']],
+                    [['lit', 'x/'], ['wild', 'a', None, None], ['lit', '/p/'], ['wild', 'b', None, None]],
+                    [['lit', 'x/'], ['wild', 'only', None, None]]]
+            for ast in wild[:1 + variant % 3] + ([wild[2]] if variant % 2 else []):
+                if not any(r['ast'] == ast for r in rules):
+                    rules.append({'ast': ast, 'text': R.render(rng, ast), 'method': 'GET'})
+            rng.shuffle(rules)
+            b = build(rules)
+            ctx.count('rules_registered', len(b.accepted))
+            ctx.count('rule_sets_with_16_or_more_siblings_at_one_node' if width >= 16 else 'rule_sets_with_fewer_siblings')
+            desc = [{'ast': r['ast'], 'text': r['text'], 'method': r['method'], 'overwrite': False} for r in rules]
+            paths = R.gen_paths(rng, [rules[i]['ast'] for i in b.accepted], unit['paths'])
+            paths += ['x/\r/edit', 'x/\r/p/q', 'x/\r', 'x/a\r/edit', 'x/\rb/p/\r', 'x/q/p/\r', 'x//edit', 'x/' + firsts[width - 1], 'x/' + firsts[min(width, 61)] + '/edit']
+            for path in paths:
+                for via in ('resolve', 'wsgi'):
+                    nt = check_case(ctx, b, path, 'GET', via, desc)
+                    ctx.case(('wide', width, variant, path, via), nontrivial=nt)
+    ctx.sample({'sibling_counts': unit['widths'], 'wildcard_rules_beside_them': ['/x/<name>/edit', '/x/<a>/p/<b>', '/x/<only>']})
+
+
 def exh_unit(ctx, unit):
     import random
     alpha = ['a', 'b', '/', '1', '\r']
@@ -482,6 +514,8 @@ def run_unit(ctx, unit):
         random_unit(ctx, unit)
     elif k == 'exh':
         exh_unit(ctx, unit)
+    elif k == 'wide':
+        wide_unit(ctx, unit)
     else:
         b = build(unit['rules'])
         print('  registered:', [unit['rules'][i]['text'] for i in b.accepted], 'refused:', b.rejected)
